@@ -45,8 +45,10 @@ def encode (tabs : QTables) (e : Encoding) (qp : UInt8) : UInt8 :=
       let q := if qp ≤ 62 then qp + 64 else qp
       if q < 66 then 66 else q     -- 'B'
     | .solexa =>
-      let q := tabs.phredSolexa qp -- byte(qp.Qsolexa())
-      if q ≤ 62 then q + 64 else q
+      let q := tabs.phredSolexa qp -- byte(qs) with qs := qp.Qsolexa()
+      -- `if qs <= 62` on the signed score (after the fix of negative Solexa encoding):
+      -- bytes ≥ 128 are negative int8 values
+      if q ≤ 62 || q ≥ 128 then q + 64 else q
     | .none => 32
 
 /-- `Encoding.DecodeToQphred` (`Qphred` is a byte: the subtraction wraps) -/
